@@ -65,9 +65,9 @@ CHECKS = {
     technique="TLA+ reference semantics (exact integer sums) + TLC identity checking; trace validation of the real routines by TLC",
     design="5/C16"),
  "C17": dict(
-    text="NN.tla defines convolution (stride, zero padding, dilation, groups, bias), max/avg pooling (kernel, stride, ceil mode with overhanging windows) and linear as nested sums over exactly the window elements; TLC checks the output-size formulas against direct window counting and identity/subsampling laws over the parameter space; the parameter product space of the property is executed on the real conv1d/conv2d/pooling/linear views with integer-valued data and TraceOps.tla decides shape and every element (avg pooling after scaling by kh!*kw!).",
-    note="Trusted: TLC, NN.tla (PyTorch definitions), drv_nn.cpp. softmax/softmin, normalisation layers, bilinear, pairwise_distance and cosine_similarity are NOT decided (exp/sqrt/division are outside TLC). Four input classes are known findings.",
-    technique="TLA+ reference semantics (exact integer sums) + TLC law checking of the size formulas; trace validation of the real routines by TLC",
+    text="NN.tla defines convolution (stride, zero padding, dilation, groups, bias), max/avg pooling (kernel, stride, ceil mode with overhanging windows) and linear as nested sums over exactly the window elements; TLC checks the output-size formulas against direct window counting and identity/subsampling laws over the parameter space; the parameter product space of the property is executed on the real conv1d/conv2d/pooling/linear views with integer-valued data and TraceOps.tla decides shape and every element (avg pooling after scaling by kh!*kw!); the real-valued routines run on small integer data and are compared with NNReal.tla's fixed-point definitions.",
+    note="Trusted: TLC, NN.tla, NNReal.tla, drv_nnreal.cpp, (PyTorch definitions), drv_nn.cpp. softmax/softmin, batch/layer/instance/group normalisation, pairwise_distance and cosine_similarity are decided in fixed point (NNReal.tla: exp table of mathematical constants, integer square root; values x 1024 within the event's tolerance, which separates wiring defects, not accuracy); bilinear is exact. Four input classes are known findings.",
+    technique="TLA+ reference semantics (exact integer sums; fixed point for the real-valued routines) + TLC law checking of the size formulas; trace validation of the real routines by TLC",
     design="5/C17"),
  "C10": dict(
     text="Programs.tla is the program machine: a chain of view operations over a leaf whose arguments are chosen from the shape of the intermediate result; its meaning is the composition of the reference semantics (Denote.RunProg). TLC checks 'fused = staged for every split', well-formedness and 'Nothing is final' on every program of the bounded alphabet and exports the programs; the driver builds the composed view type for every program (continuation-passing dispatch, one binary per first operation) and runs it lazily, with the row-major and column-major result resolvers, into a caller-supplied output and staged after every prefix; TraceOps.tla validates all variants against the same denotation.",
